@@ -1047,17 +1047,10 @@ impl<Id: EntityId> PropertyColumn<Id> {
 
         match op {
             CompareOp::Eq => self.zone_map.might_contain_equal(value),
-            CompareOp::Ne => {
-                // Can only skip if all values are equal to the value
-                // (which means min == max == value)
-                match (&self.zone_map.min, &self.zone_map.max) {
-                    (Some(min), Some(max)) => {
-                        !(compare_values(min, value) == Some(Ordering::Equal)
-                            && compare_values(max, value) == Some(Ordering::Equal))
-                    }
-                    _ => true,
-                }
-            }
+            // min == max == value does not mean that every value equals `value`: values that
+            // are not comparable with the bounds (another type, NaN) never enter min/max.
+            // Stay conservative, like the chunk-level zone map check of the filter operator.
+            CompareOp::Ne => true,
             CompareOp::Lt => self.zone_map.might_contain_less_than(value, false),
             CompareOp::Le => self.zone_map.might_contain_less_than(value, true),
             CompareOp::Gt => self.zone_map.might_contain_greater_than(value, false),
